@@ -1,7 +1,7 @@
 ------------------------------ MODULE Trace_C15 ------------------------------
 (* Trace validation for C15: no data race reported by the race detector during the run;   *)
-(* every verdict observed under concurrency is a verdict the same call gives when run     *)
-(* alone.                                                                                 *)
+(* every verdict a call gives alone is the one SharedState!Verdicts prescribes, and every   *)
+(* result observed under concurrency (per variant) is the one the same call gives alone.  *)
 EXTENDS Naturals, Sequences, FiniteSets, TLC, Json, CSV
 Trace == ndJsonDeserialize("trace.ndjson")
 VARIABLE l
@@ -9,10 +9,13 @@ Init == l = 0
 Next == l < Len(Trace) /\ l' = l + 1
 Spec == Init /\ [][Next]_l
 
+SS == INSTANCE SharedState WITH DefaultCopied <- TRUE, RouteCopied <- TRUE, MaxOps <- 1, prog <- <<>>, held <- <<>>
 Range(f) == {f[i] : i \in DOMAIN f}
 Failed(line) ==
    IF line.outcome = "race" THEN {"no_data_race"}
    ELSE IF line.outcome \in {"panic", "crash", "hang"} THEN {"returns_normally"}
+   ELSE IF \E i \in DOMAIN line.runs : line.runs[i].verdicts # SS!Verdicts(line.runs[i].op)
+        THEN {"verdict_the_document_prescribes"}
    ELSE IF \E i \in DOMAIN line.runs : ~(Range(line.runs[i].conc) \subseteq Range(line.runs[i].alone))
         THEN {"verdict_as_when_run_alone"} ELSE {}
 LineOK(line) ==
